@@ -433,12 +433,15 @@ func (db *DB) updateSchema(
 					existingCol.Name = schema.Name
 
 					for _, globalField := range schema.Fields {
-						existingCol.Fields = append(
-							existingCol.Fields,
-							client.CollectionFieldDescription{
-								Name: globalField.Name,
-							},
-						)
+						_, exists := existingCol.GetFieldByName(globalField.Name)
+						if !exists {
+							existingCol.Fields = append(
+								existingCol.Fields,
+								client.CollectionFieldDescription{
+									Name: globalField.Name,
+								},
+							)
+						}
 					}
 
 					definitions = append(definitions, client.CollectionDefinition{
